@@ -38,6 +38,7 @@ const (
 	toSelf       = -1      // empty receiver field
 	idxCollector = 6       // blocked address
 	idxFresh     = 7       // address without an account
+	idxModule    = 8       // the token module account itself (not a blocked address): coins sent or minted to it are parked there
 	whoGov       = -1
 )
 
@@ -55,6 +56,8 @@ func c09Addr(e *chain.Env, i int) sdk.AccAddress {
 		return e.Users[i].Addr
 	case i == idxCollector:
 		return c09Collector
+	case i == idxModule:
+		return c09Module
 	default:
 		return c09Fresh
 	}
@@ -125,6 +128,7 @@ type m09 struct {
 	base   *big.Int
 	feeSym string // symbol of the fee token (params.IssueTokenBaseFee.Denom)
 	nReimp int
+	parked map[string]*big.Int // denom -> coins sent or minted to the token module account itself
 	cls    map[string]bool
 	nt     bool
 	avoid5 bool
@@ -470,7 +474,7 @@ func (m *m09) Next(t *rapid.T) op09 {
 	case k < 60: // mint
 		tk := m.pickToken(t)
 		op := op09{Kind: "mint", MinUnit: tk.minUnit, Symbol: tk.symbol, Who: m.pickWho(t, tk, 80)}
-		op.To = rapid.SampledFrom([]int{toSelf, toSelf, toSelf, 0, 1, 2, 3, 5, idxCollector, idxFresh}).Draw(t, "to")
+		op.To = rapid.SampledFrom([]int{toSelf, toSelf, toSelf, 0, 1, 2, 3, 5, idxCollector, idxFresh, idxModule}).Draw(t, "to")
 		rem := new(big.Int).Sub(tk.cap(), tk.supply)
 		if rapid.IntRange(0, 6).Draw(t, "legacy") == 0 {
 			op.Legacy = true
@@ -593,6 +597,10 @@ func (m *m09) Next(t *rapid.T) op09 {
 		op := op09{Kind: "send", MinUnit: tk.minUnit, Who: rapid.IntRange(0, 3).Draw(t, "who"), To: rapid.IntRange(0, 5).Draw(t, "to")}
 		bal := m.c.Balance(m.c.E.Users[op.Who].Addr, tk.minUnit).BigInt()
 		v := new(big.Int).Quo(bal, big.NewInt(int64(rapid.IntRange(1, 4).Draw(t, "div"))))
+		if rapid.IntRange(0, 2).Draw(t, "park") == 0 {
+			op.To = idxModule // dust parked on the token module account
+			v = big.NewInt(int64(rapid.IntRange(1, 9).Draw(t, "dust")))
+		}
 		if v.Sign() <= 0 {
 			v = big.NewInt(1)
 		}
@@ -892,6 +900,9 @@ func (m *m09) Apply(op op09) error {
 				commit = func() {
 					tk.supply = new(big.Int).Add(tk.supply, amount)
 					m.feePaid(fee)
+					if to.Equals(c09Module) {
+						m.park(tk.minUnit, amount)
+					}
 					if tk.supply.Cmp(tk.cap()) == 0 {
 						m.cls["mint-to-exact-cap"] = true
 					}
@@ -964,6 +975,9 @@ func (m *m09) Apply(op op09) error {
 		r := c.Deliver(msg)
 		if r.Outcome == chain.Panicked {
 			return pbt.Failf("C09/panic", "bank send panicked: %v", r.Panic)
+		}
+		if r.Outcome == chain.OK && op.To == idxModule {
+			m.park(op.MinUnit, amount)
 		}
 		return m.invariants()
 
@@ -1070,6 +1084,18 @@ func (m *m09) Apply(op op09) error {
 		}
 	}
 	return m.invariants()
+}
+
+// park notes coins that reached the token module account as an ordinary recipient.
+func (m *m09) park(denom string, amount *big.Int) {
+	if m.parked == nil {
+		m.parked = map[string]*big.Int{}
+	}
+	if m.parked[denom] == nil {
+		m.parked[denom] = new(big.Int)
+	}
+	m.parked[denom].Add(m.parked[denom], amount)
+	m.cls["coins-parked-on-the-module-account"] = true
 }
 
 func (m *m09) feePaid(fee *big.Int) {
@@ -1253,9 +1279,15 @@ func (m *m09) invariants() error {
 		p.IssueTokenBaseFee.Denom != m.feeSym || p.IssueTokenBaseFee.Amount.BigInt().Cmp(m.base) != 0 {
 		return pbt.Failf("C09/params-mismatch", "params read %+v, model tax=%s ratio=%s base=%s%s", p, m.tax, m.ratio, m.base, m.feeSym)
 	}
-	// nothing may stay in the token module account
-	if bal := c.E.App.BankKeeper.GetAllBalances(c.Ctx, c09Module); !bal.IsZero() {
-		return pbt.Failf("C09/module-account-nonzero", "token module account holds %s", bal)
+	// nothing may stay in the token module account but what was sent or minted to it on purpose
+	wantMod := sdk.Coins{}
+	for d, v := range m.parked {
+		if v.Sign() > 0 {
+			wantMod = wantMod.Add(sdk.Coin{Denom: d, Amount: gen.ToInt(v)})
+		}
+	}
+	if bal := c.E.App.BankKeeper.GetAllBalances(c.Ctx, c09Module); !bal.Equal(wantMod) {
+		return pbt.Failf("C09/module-account-nonzero", "token module account holds %s, parked there: %s", bal, wantMod)
 	}
 	return nil
 }
